@@ -10,10 +10,12 @@ func CompileToGetCodeSet(ctx *RuntimeContext, typeptr uintptr) (*OpcodeSet, erro
 		if err != nil {
 			return nil, err
 		}
+		verifSlot(false, 0, typeptr, codeSet)
 		return getFilteredCodeSetIfNeeded(ctx, codeSet)
 	}
 	index := (typeptr - typeAddr.BaseTypeAddr) >> typeAddr.AddrShift
 	if codeSet := cachedOpcodeSets[index]; codeSet != nil {
+		verifSlot(true, index, typeptr, codeSet)
 		filtered, err := getFilteredCodeSetIfNeeded(ctx, codeSet)
 		if err != nil {
 			return nil, err
@@ -24,6 +26,7 @@ func CompileToGetCodeSet(ctx *RuntimeContext, typeptr uintptr) (*OpcodeSet, erro
 	if err != nil {
 		return nil, err
 	}
+	verifSlot(true, index, typeptr, codeSet)
 	filtered, err := getFilteredCodeSetIfNeeded(ctx, codeSet)
 	if err != nil {
 		return nil, err
